@@ -12,9 +12,9 @@ What the lemmas make visible (nothing here is a new kind of defect; the classes 
 * NO function of the model leaves a child cursor unchecked.  The two repaired sites (`FROM (t junk)`, `CAST(a AS DECIMAL(10 20))`)
   are closed in the model (`closed_pTableExpr`, `closed_castTail`, `closed_castParamsLoop`).
 * `splitBy` (`pop_as_children_scanner_list_split_by`) drops EMPTY segments: `splitBy_flatten` — the segments, concatenated, are
-  exactly the children without the separator tokens, so no token other than a separator is lost, but `IN (1,,2)`, `f(a,,b)` is not
-  the case (pArgs requires an expression after each comma) while `IN (1,,2)`, `VALUES (1,,2)`, `GROUPING SETS ((a,,b))`,
-  `PARTITION (a=1,,b=2)` are accepted as if the empty segment were not there.
+  exactly the children without the separator tokens, so no token other than a separator is lost — and `splitBy_nonempty`: no segment
+  is empty.  `IN (1,,2)`, `VALUES (1,,2)`, `GROUPING SETS ((a,,b))`, `PARTITION (a=1,,b=2)` are accepted as if the empty segment were
+  not there (`f(a,,b)` is not: `pArgs` wants an expression after each comma).  The code does the same (`scanner.py:223-236`).
 * Where the model takes `g.children` of the next token WITHOUT testing that `g` is a bracket group (a word has no children, so
   the group is "empty" and the word is dropped, class F-C08-6) the lemma shows it: the token `g` is existentially bound with no
   `g.has PAREN` conjunct — `closed_pInBody` (`a IN b`), `closed_pWindow` (`f(x) OVER w`), `closed_pGroupingSets`
